@@ -208,14 +208,14 @@ def build_tape(method, tp, matrix, expected_calls=None):
             ents.append((m, a, b))
     else:
         for (m, ans) in tp.fun:
-            ents.append((m, ans, ans))
+            ents.append((m, ans, None))
     return ents
 
 
 def tape_lit(ents):
     if not ents:
         return "(@nil tape_entry)"
-    return "[" + "; ".join(f"({qmat(m)}, {triple_lit(a)}, {triple_lit(b)})" for (m, a, b) in ents) + "]"
+    return "[" + "; ".join(f"({qmat(m)}, {triple_lit(a)}, {'None' if b is None else '(Some ' + triple_lit(b) + ')'})" for (m, a, b) in ents) + "]"
 
 
 def nn_lit(nn):
@@ -224,14 +224,38 @@ def nn_lit(nn):
     return "(Some NNDSVD)" if nn == "nndsvd" else "(Some NNDSVDA)"
 
 
-def case_lit(cid, cfg, out, ents):
-    M = cfg["matrix"]
-    d1, d2 = M.shape
-    exp = "Err" if out[0] != "ok" else f"(Ok {triple_lit(out[1])})"
-    mask = "None" if cfg["mask"] is None else f"(Some {qmat(cfg['mask'])})"
-    return (f"(Case {cid}%nat {d1}%nat {d2}%nat {optnat(cfg['n'])} {METH_LIT.get(cfg['method'], 'MUnknown')} "
-            f"{C.boolc(cfg['flip'])} {C.boolc(cfg['ub'])} {nn_lit(cfg['nn'])} {qmat(M)} {mask} {int(cfg['iters'])}%nat "
-            f"{tape_lit(ents)} {exp})")
+class Groups:
+    """Coq cases: requests that share matrix, method, mask setting and a byte-identical answer tape form one Group"""
+    def __init__(self):
+        self.groups = {}   # key -> [head literal, [sub literals]]
+        self.meta = []     # sub id -> cfg
+
+    def add(self, cfg, out, ents):
+        M = cfg["matrix"]
+        d1, d2 = M.shape
+        mask = "None" if cfg["mask"] is None else f"(Some {qmat(cfg['mask'])})"
+        head = (f"{d1}%nat {d2}%nat {METH_LIT.get(cfg['method'], 'MUnknown')} {qmat(M)} {mask} {int(cfg['iters'])}%nat {tape_lit(ents)}")
+        exp = "Err" if out[0] != "ok" else f"(Ok {triple_lit(out[1])})"
+        sid = len(self.meta)
+        self.meta.append(cfg)
+        sub = f"(Sub {sid}%nat {optnat(cfg['n'])} {C.boolc(cfg['flip'])} {C.boolc(cfg['ub'])} {nn_lit(cfg['nn'])} {exp})"
+        self.groups.setdefault(head, []).append(sub)
+
+    def literals(self):
+        """group literals, interleaved by size so that count-based shards carry similar weight"""
+        lits = [f"(Group {h} [{'; '.join(subs)}])" for h, subs in self.groups.items()]
+        lits.sort(key=len)
+        return lits
+
+    def shards(self, target_bytes=180000):
+        """(ordered group literals, groups per shard): stride distribution, so every count-based shard of
+        common.run_case_shards gets small and large groups"""
+        lits = self.literals()
+        total = sum(map(len, lits))
+        nsh = max(1, min(len(lits), -(-total // target_bytes)))
+        per = max(1, -(-len(lits) // nsh))
+        cols = sorted((lits[k::nsh] for k in range(nsh)), key=len, reverse=True)
+        return [g for c in cols for g in c], per
 
 
 # ----------------------------------------------------------------------------- property predicates
@@ -412,12 +436,12 @@ def configs(tier, rng):
                 ns = list(range(1, mx + 3)) + [None]
                 for n in ns:
                     for method in ("truncated_svd", "symeig_svd", "randomized_svd", "callable"):
+                        kw = {}
+                        if method == "randomized_svd":
+                            kw = {"random_state": rng.randrange(10 ** 6)}
+                            if rng.random() < 0.3:
+                                kw["n_oversamples"] = rng.choice([0, 1, 2])
                         for (flip, ub) in ((False, True), (True, True), (True, False)):
-                            kw = {}
-                            if method == "randomized_svd":
-                                kw = {"random_state": rng.randrange(10 ** 6)}
-                                if rng.random() < 0.3:
-                                    kw["n_oversamples"] = rng.choice([0, 1, 2])
                             yield dict(matrix=M, kind=kind, method=method, n=n, flip=flip, ub=ub, nn=None, mask=None, iters=0, kwargs=kw)
                 # masks (n_eigenvecs must be given) and the non-negative option on a few requests per matrix
                 for n in sorted(set([1, min(shape), mx])):
@@ -452,15 +476,24 @@ def last_matrix(cfg, tp):
     return cfg["matrix"]
 
 
-def coq_selected(cfg, idx, tier):
-    """which configurations also go through the Coq correspondence (all go through the predicates)"""
-    if cfg["nn"] not in (None, False):
-        return False
+def coq_selected(cfg, idx, tier, seed=0):
+    """which configurations also go through the Coq correspondence (all go through the predicates).
+    The cost of a Coq case is the number of float literals Coq has to parse, so the quick tier takes, per shape,
+    two of the four matrix kinds (which two depends on the seed) and a quarter of the non-LAPACK-taped methods."""
     if max(cfg["matrix"].shape) > 6:
         return False
-    if cfg["method"] == "truncated_svd" or cfg["mask"] is not None or cfg["method"] not in METH_LIT:
+    if cfg["method"] not in METH_LIT or cfg["kind"] in ("corpus", "replay"):
         return True
-    return idx % (4 if tier == "quick" else 2) == 0
+    d1, d2 = cfg["matrix"].shape
+    base = cfg["kind"].split("+")[0]
+    kidx = KINDS.index(base) if base in KINDS else 0
+    if tier == "quick" and (d1 * 7 + d2 * 3 + kidx + seed) % 2:
+        return False
+    if cfg["nn"] not in (None, False):
+        return True
+    if cfg["method"] == "truncated_svd" or cfg["mask"] is not None:
+        return True
+    return (idx // 3) % (2 if tier == "quick" else 1) == 0     # idx // 3: the three flip settings of one request stay together
 
 
 def evaluate(cfg):
@@ -495,7 +528,7 @@ def run(chk):
     chk.axioms = {k: [a for a in v if a != "Axioms"] for k, v in chk.axioms.items()}
     chk.broken = [b for b in chk.broken if not (str(b.get("what", "")).endswith("depends on non-stdlib axioms") and b.get("detail") == ["Axioms"])]
     tier = chk.tier
-    cases, meta = [], []
+    grp = Groups()
     skipped_tape = 0
     cfgs = []
     # corpus first
@@ -503,7 +536,7 @@ def run(chk):
     if os.path.isdir(cdir):
         for fn in sorted(os.listdir(cdir)):
             if fn.endswith(".json"):
-                cfgs.append(cfg_from_inputs(json.load(open(os.path.join(cdir, fn)))["inputs"]))
+                cfgs.append(dict(cfg_from_inputs(json.load(open(os.path.join(cdir, fn)))["inputs"]), kind="corpus"))
     cfgs += list(configs(tier, rng))
     for idx, cfg in enumerate(cfgs):
         out, tp, M_last, bad = evaluate(cfg)
@@ -521,7 +554,7 @@ def run(chk):
         for pred, msg in bad:
             chk.finding(EP, inputs_of(cfg), msg, pred, observed=(list(out[1]) if out[0] == "ok" else str(out[1])),
                         extra={"M_last": M_last, "rank": num_rank(sig)})
-        if coq_selected(cfg, idx, tier):
+        if coq_selected(cfg, idx, tier, chk.seed):
             if out[0] == "ok" and not finite3(out[1]):
                 continue
             if out[0] == "crash":
@@ -531,10 +564,13 @@ def run(chk):
             if cfg["method"] in METH_LIT and not ents:
                 skipped_tape += 1
                 continue
-            cases.append(case_lit(len(cases), cfg, out, ents))
-            meta.append(cfg)
+            grp.add(cfg, out, ents)
     lap("implementation + predicates")
-    failing, n_eval, broken = C.run_case_shards("C05", HEADER, "case", cases, shard=(60 if tier == "quick" else 120))
+    meta = grp.meta
+    cases, per = grp.shards()
+    failing, n_groups, broken = C.run_case_shards("C05", HEADER, "case", cases, shard=per)
+    n_eval = len(meta) if not broken else 0
+    chk.cov["coq_groups"] = len(cases)
     chk.checker_cmds.append("coqc (vm_compute) on generated build/cases/C05/*/*.v: Corr.C05.failing / dfailing")
     for b in broken:
         chk.broken.append({"what": "correspondence corr:C05 shard not evaluated", "detail": b})
